@@ -27,6 +27,7 @@ func init() {
 		ID: "C11", Level: "fault_enumeration",
 		Rule: "history = first bootstrap of an empty store followed by 1..5 rotations (any serial/time flags, some after an injected storage fault with an in-process retry) over gcsca on an in-memory object store and on storage/local; a recording store logs every completed object write; " +
 			"the offline checker replays EVERY prefix of every command's write log onto the command's pre-state (and every permutation of the certificate uploads that precede the manifest write, because pending certificates are uploaded in Go map order), reloads a fresh gcsca.CertificateAuthority from each such store and checks: manifest parses, every listed key version resolves to a stored parseable certificate, a recorded primary signing key has a certificate that verifies under the stored root. " +
+			"further families (extra.go), judged by the same prefix and end-of-command rules: rotations continuing a history after a rotation interrupted at six points (leftover objects, same/default/new/zero serial, every overwrite x keep-going combination, fresh process or the authority value that saw the error); fault-free histories over flag x serial (unset, zero, new, >64 bit, colliding with a stored object) x process model (fresh, one long-lived authority value, mixed = stale value) with a re-used SigningKeyContext; a complete second command on another store nested at every call position of a bootstrap and a rotation; authorities on disjoint stores in parallel goroutines; storage weather (pairs, bursts, outages of failing storage calls reported at open/write/commit with plain, status-coded and context errors); bootstraps of an empty store under every flag combination with equal / zero / unset / >64-bit serials, nested and empty common names and both certificates on one object name. " +
 			"non-trivial = prefixes whose store differs from the previous prefix; distinct = (command kind, store, number of writes applied, object written last, permutation id) cells; upload orders actually observed are counted",
 		Assumptions: []string{"crash granularity is one completed object write (the property's granularity); torn files are not modelled", "memca has no store and is outside C11"},
 		ShardsQuick: 8, ShardsThor: 16, TimeoutS: 1800, TimeoutThor: 3600, Exhaustive: true, Run: run,
@@ -276,6 +277,7 @@ func run(c *core.Ctx) {
 		os.RemoveAll(dir)
 	}
 	faulted(c, k, t0)
+	extra(c, k, t0)
 	c.Count("write-prefixes-checked", k.prefixes)
 	c.Count("distinct-bootstrap-upload-orders-observed", len(orders))
 	for o := range orders {
